@@ -1,10 +1,12 @@
 import Zrnt.Driver.Loop
 import Zrnt.Util.C19Driver
+import Zrnt.Shuffle.Driver
 /-! Registry of `zmodel` modes. One line per component: `import` above, entry in `modes` below. -/
 namespace Zrnt.Driver
 
 def modes : List Mode := [
-  Zrnt.Util.c19Mode
+  Zrnt.Util.c19Mode,
+  Zrnt.Shuffle.shuffleMode
 ]
 
 def run (args : List String) : IO UInt32 := do
